@@ -472,6 +472,9 @@ func templateCase(c *h.Case, g *gen) {
 	c.Data["envs"] = envs
 	out, err := config.RenderWithTemplate([]byte(tmpl.String()), &config.Values{Envs: envs})
 	run.Count("templates_rendered", 1)
+	if c.Idx == 400002 {
+		run.Sample(map[string]any{"kind": "template", "template": short(tmpl.String()), "envs": envs})
+	}
 	run.Distinct("tmpl|" + tmpl.String())
 	if mismatch && nodes[len(nodes)-2*nBlocks].pair {
 		if err == nil {
